@@ -173,10 +173,42 @@ SeqSuffix(parts, p, i) ==
     ELSE <<DASH>> \o AddU64(IF i <= Len(parts) THEN ScanVal(parts[i]) ELSE Zero20, Delta20(p, i))
          \o SeqSuffix(parts, p, i + 1)
 
+(* Optional fields of a request: PRESENCE and VALUE are separate.                                            *)
+(* The wire format (proto/client.proto) gives a put four `optional` fields - expected_version_id, session_id, *)
+(* client_identity, partition_key - whose presence is transmitted independently of their value: "present   *)
+(* with the zero value" (partition key "", client identity "", session 0, expected version 0 / -1) and       *)
+(* "absent" are different requests, and both survive the log (the entry stores the marshalled request).      *)
+(* The plain fields (key, the two fields of an index declaration, the range bounds) and the repeated field  *)
+(* sequence_key_delta have no presence: empty IS absent; a delta of 0 is an ordinary element.                *)
+(* A put of the specification therefore carries, for every optional field, a presence flag and a value:      *)
+(*   partition key     p.pkey (present)   p.pk  (value, byte codes; a put without the record field "pk" has   *)
+(*                                               the value "pk" - the alphabets written before the field     *)
+(*                                               existed)                                                     *)
+(*   expected version  p.exp # NoExp      p.exp (any value; -1 = "must not exist")                            *)
+(*   session           p.sess # NoSess    p.sess                                                              *)
+(*   client identity   CidPresent(p)      p.cid (optional record field "cidp" = present although empty)       *)
+(* Admission (what validateWriteRequest refuses before the request is logged) and application (db.go,        *)
+(* db_sequences.go) have to treat every combination alike: whatever admission lets through, application     *)
+(* must answer with per-operation statuses - on the leader and on every replay of the log.  Both are         *)
+(* transcribed below in terms of PRESENCE where the code tests `== nil` and in terms of the VALUE where it   *)
+(* uses a getter, so that a disagreement between the two layers on one request shape (present-but-empty      *)
+(* against absent) is a difference between two definitions of this module (OxiaDbMC!AdmissionCoversApply,    *)
+(* OptNeutral), and a disagreement between the code and this module shows up in the replay.                   *)
+PkDefault     == <<112, 107>>                                              \* "pk"
+PkPresent(p)  == p.pkey                                                    \* req.PartitionKey != nil
+PkVal(p)      == IF ~p.pkey THEN <<>> ELSE IF "pk" \in DOMAIN p THEN p.pk ELSE PkDefault   \* req.GetPartitionKey()
+ExpPresent(p) == p.exp # NoExp
+SessPresent(p) == p.sess # NoSess
+CidPresent(p) == IF "cidp" \in DOMAIN p THEN p.cidp \/ p.cid # "" ELSE p.cid # ""
+\* the same put with every value the state machine does not interpret replaced by an ordinary one (the value
+\* of a present partition key, the presence of an empty client identity)
+NormOptPut(p) == [f \in DOMAIN p \ {"pk", "cidp"} |-> p[f]]
+NormOpt(req)  == [req EXCEPT !.puts = [i \in 1..Len(req.puts) |-> NormOptPut(req.puts[i])]]
+
 \* outcome of generateUniqueKeyFromSequences
 SeqOutcome(kv, p) ==
     LET parts == SeqParts(kv, p.key) IN
-    IF ~p.pkey THEN "ERR_MISSING_PARTITION_KEY"
+    IF ~PkPresent(p) THEN "ERR_MISSING_PARTITION_KEY"     \* `req.PartitionKey == nil`: presence, not the value
     ELSE IF p.exp # NoExp THEN "UNEXPECTED_VERSION_ID"
     ELSE IF Len(parts) > Len(p.deltas) THEN "ERR_MISSING_SEQUENCE_DELTAS"
     ELSE IF Delta20(p, 1) = Zero20 THEN "ERR_SEQUENCE_DELTA_IS_ZERO"
@@ -185,12 +217,17 @@ SeqOutcome(kv, p) ==
 SeqNewKey(kv, p) == p.key \o SeqSuffix(SeqParts(kv, p.key), p, 1)
 
 (* What the leader refuses before it allocates an offset and logs the request              *)
-(* (leader_controller.go: Write/WriteBlock): sequence puts that can never be applied.      *)
+(* (leader_controller.go: validateWriteRequest, called by Write/WriteBlock): sequence puts *)
+(* that can never be applied - `put.PartitionKey == nil` (presence; a partition key that   *)
+(* is present but empty is NOT refused) or a first delta of 0.  Nothing else is looked at: *)
+(* not the key (may be empty), not the other optional fields, not deletes or ranges.       *)
 (* ... and no secondary-index declaration, whatever it looks like (see "Secondary-index declarations" below) *)
 DeclRefused(d)   == FALSE
-PutWellFormed(p) == /\ p.deltas # <<>> => (p.pkey /\ Delta20(p, 1) # Zero20)
+PutWellFormed(p) == /\ p.deltas # <<>> => (PkPresent(p) /\ Delta20(p, 1) # Zero20)
                     /\ \A i \in 1..Len(p.idx) : ~DeclRefused(p.idx[i])
 WellFormed(req)  == \A i \in 1..Len(req.puts) : PutWellFormed(req.puts[i])
+\* the outcomes of the generator that depend on the content of the request alone (never on the state)
+ContentErrors == {"ERR_MISSING_PARTITION_KEY", "ERR_SEQUENCE_DELTA_IS_ZERO"}
 
 -----------------------------------------------------------------------------
 (* State                                                                   *)
@@ -336,6 +373,15 @@ SeqStateError(s, req) ==
         req.puts[i].deltas # <<>> /\      \* (only the generator yields these outcomes)
         LET a == FoldPuts([s |-> s, out |-> <<>>, nf |-> EmptyNf], SubSeq(req.puts, 1, i), 1, 0)
         IN a.out[i].st \in {"ERR_MISSING_SEQUENCE_DELTAS", "ERR_BAD_SUFFIX"}
+
+(* Requests that contain a sequence put the generator fails on because of the CONTENT of the request (a     *)
+(* missing partition key, a first delta of 0): they can never be applied by anybody, so admission has to keep *)
+(* them out of the log - every one of them must be refused by WellFormed (OxiaDbMC!AdmissionCoversApply).      *)
+ContentError(s, req) ==
+    \E i \in 1..Len(req.puts) :
+        req.puts[i].deltas # <<>> /\
+        LET a == FoldPuts([s |-> s, out |-> <<>>, nf |-> EmptyNf], SubSeq(req.puts, 1, i), 1, 0)
+        IN a.out[i].st \in ContentErrors
 
 (* Requests with a sequence put whose EXACT result is not a uint64: some suffix of the highest existing key of  *)
 (* the prefix plus its delta exceeds 2^64-1 (stated on the highest key "prefix-...", not through SeqParts).    *)
